@@ -478,7 +478,6 @@ Print Assumptions C01_real_fresh_valid.
 Print Assumptions C01_real_lossy_hit_refuted.
 Print Assumptions C01_real_lossy_hit_refuted_on_a_block_tree.
 End RealCache.
-=======
 (* ================================================================================================================================
    Wave 6: the engine theorems INSTANTIATED for the complete engine of taffy -- Model/TaffyRoot.v `real_algo` = Model/TaffyEngine.v
    `taffy_algo` with the real dispatch on (display, has_children), the block / flex / grid resumptions (block: `block_pre`, the real
